@@ -23,7 +23,11 @@ type SolveResult struct {
 	Output  string
 }
 
-func (o *Obligation) smt() string {
+func (o *Obligation) smtGround() string { return o.smtX(true) }
+
+func (o *Obligation) smt() string { return o.smtX(os.Getenv("GOVC_GROUND") != "") }
+
+func (o *Obligation) smtX(ground bool) string {
 	var sb strings.Builder
 	sb.WriteString("(set-option :produce-models true)\n(set-logic ALL)\n")
 	// body first (to know which axioms are relevant)
@@ -44,6 +48,9 @@ func (o *Obligation) smt() string {
 		sb.WriteString(")\n")
 	}
 	for _, a := range o.Assume {
+		if ground && strings.Contains(a.String(), "forall") {
+			continue
+		}
 		sb.WriteString("(assert ")
 		a.write(&sb)
 		sb.WriteString(")\n")
@@ -163,6 +170,18 @@ func solveAll(obls []*Obligation, dir string, jobs int, timeoutS int, thorough b
 			}
 			if r.Status == "unknown" && r.Output != "" && !strings.Contains(strings.Join(r.Tried, " "), "unknown") {
 				r.Status = "error"
+			}
+			if r.Status == "unknown" && o.Expect == "unsat" {
+				// candidate counterexample: drop the quantified assumptions and ask again (a model of the ground part)
+				os.Setenv("GOVC_GROUND_ONE", "1")
+				gf := strings.TrimSuffix(file, ".smt2") + ".ground.smt2"
+				if err := os.WriteFile(gf, []byte(o.smtGround()), 0o644); err == nil {
+					st, _, _ := runBackend(backends[0], gf, 5, false)
+					if st == "sat" {
+						r.Model = "; candidate model (quantified assumptions dropped)\n" + getModel(backends[0], gf, 5)
+					}
+					os.Remove(gf)
+				}
 			}
 			if r.Status == o.Expect || (o.Expect == "sat" && r.Status == "unknown") {
 				os.Remove(file)
